@@ -273,7 +273,14 @@ static void secp256k1_scratch_space_destroy(const secp256k1_context *ctx, secp25
 /* Mark memory as no-longer-secret for the purpose of analysing constant-time behaviour
  *  of the software.
  */
+#ifdef SECP256K1_ZKP_VERIF
+/* verification hook: lets a tracing harness observe every declassification (value and length) */
+static void (*secp256k1_verif_declassify_cb)(const void *p, size_t len) = NULL;
+#endif
 static SECP256K1_INLINE void secp256k1_declassify(const secp256k1_context* ctx, const void *p, size_t len) {
+#ifdef SECP256K1_ZKP_VERIF
+    if (secp256k1_verif_declassify_cb != NULL) secp256k1_verif_declassify_cb(p, len);
+#endif
     if (EXPECT(ctx->declassify, 0)) SECP256K1_CHECKMEM_DEFINE(p, len);
 }
 
